@@ -4,6 +4,7 @@ import CasbinV.Driver.Policy
 import CasbinV.Driver.Enforcer
 import CasbinV.Driver.Matcher
 import CasbinV.Driver.Persist
+import CasbinV.Driver.Fast
 /-! Line-protocol driver: `driver <family>`; exactly one answer line per input line.
     Lines starting with `#` are echoed; `#reset` also resets a stateful family to its initial state.
     Unknown or malformed lines answer `bad-op` (never defaulted). -/
@@ -21,7 +22,8 @@ def families : List (String × Family) := [
   ("policy", { σ := Casbin.Driver.Policy.St, init := {}, step := Casbin.Driver.Policy.step }),
   ("enf", { σ := Casbin.Driver.Enf.DSt, init := {}, step := Casbin.Driver.Enf.step }),
   ("matcher", { σ := Casbin.Driver.Matcher.Table, init := [], step := Casbin.Driver.Matcher.step }),
-  ("persist", { σ := Casbin.Driver.Persist.DState, init := {}, step := Casbin.Driver.Persist.handle })
+  ("persist", { σ := Casbin.Driver.Persist.DState, init := {}, step := Casbin.Driver.Persist.handle }),
+  ("fast", { σ := Option Casbin.Driver.Fast.St, init := none, step := Casbin.Driver.Fast.step })
 ]
 
 partial def runFamily (h out : IO.FS.Stream) (fam : Family) (s : fam.σ) : IO Unit := do
